@@ -1,4 +1,405 @@
 package main
 
-func c1ModelOps(c *Cfg, r *Rng) {}
+// C01 (B) — O-level correspondence with the CueCore model (lean/CueVerif/Model/Core.lean).
+//
+// Op: `eval <prefix encoding of an expression>`; the Lean driver answers with the canonical
+// form of the model's `eval`, which is PROVED invariant under every rearrangement
+// (C01_rearrangement). The implementation's answer is the projection of the finalized vertex
+// to the model's vocabulary. The model anchors one arrangement of each program; the direct
+// predicate (c01.go) covers the others.
+//
+// Fragment: integers, strings "s<n>", booleans, null, the types int/string/bool, integer
+// ranges `int & >=lo & <=hi`, `_`, `&`, struct literals with regular / optional / required
+// fields over the labels a b c d, embedded struct literals, close() of a struct expression
+// outside embeddings. Errors propagate through regular fields only (model rule); the
+// projection recomputes that from the arcs.
 
+import (
+	"fmt"
+	"sort"
+	"strings"
+
+	"cuelang.org/go/cue"
+	"cuelang.org/go/cue/cuecontext"
+	"cuelang.org/go/internal/core/adt"
+	"cuelang.org/go/internal/core/eval"
+	"cuelang.org/go/internal/value"
+)
+
+type c1mx struct {
+	op    byte // T B s(calar token) & c {
+	tok   string
+	args  []*c1mx
+	decls []c1md
+}
+
+type c1md struct {
+	embed bool
+	label int
+	typ   byte // . ? !
+	v     *c1mx
+}
+
+var c1mLabels = []string{"a", "b", "c", "d"}
+
+func (e *c1mx) tokens(out *[]string) {
+	switch e.op {
+	case 'T', 'B':
+		*out = append(*out, string(e.op))
+	case 's':
+		*out = append(*out, e.tok)
+	case '&':
+		*out = append(*out, "&")
+		e.args[0].tokens(out)
+		e.args[1].tokens(out)
+	case 'c':
+		*out = append(*out, "c")
+		e.args[0].tokens(out)
+	case '{':
+		*out = append(*out, "{", fmt.Sprint(len(e.decls)))
+		for _, d := range e.decls {
+			if d.embed {
+				*out = append(*out, "e")
+			} else {
+				*out = append(*out, fmt.Sprintf("f%d%c", d.label, d.typ))
+			}
+			d.v.tokens(out)
+		}
+	}
+}
+
+func c1mScalarCue(tok string) string {
+	switch {
+	case tok == "N":
+		return "null"
+	case tok == "b0":
+		return "false"
+	case tok == "b1":
+		return "true"
+	case tok == "tI":
+		return "int"
+	case tok == "tS":
+		return "string"
+	case tok == "tB":
+		return "bool"
+	case strings.HasPrefix(tok, "i"):
+		return tok[1:]
+	case strings.HasPrefix(tok, "s"):
+		return `"` + tok + `"`
+	case strings.HasPrefix(tok, "r"):
+		lo, hi, _ := strings.Cut(tok[1:], ":")
+		s := "int"
+		if lo != "*" {
+			s += " & >=" + lo
+		}
+		if hi != "*" {
+			s += " & <=" + hi
+		}
+		return "(" + s + ")"
+	}
+	return "_|_"
+}
+
+func (e *c1mx) cue(sb *strings.Builder) {
+	switch e.op {
+	case 'T':
+		sb.WriteString("_")
+	case 'B':
+		sb.WriteString("_|_")
+	case 's':
+		sb.WriteString(c1mScalarCue(e.tok))
+	case '&':
+		sb.WriteString("(")
+		e.args[0].cue(sb)
+		sb.WriteString(" & ")
+		e.args[1].cue(sb)
+		sb.WriteString(")")
+	case 'c':
+		sb.WriteString("close(")
+		e.args[0].cue(sb)
+		sb.WriteString(")")
+	case '{':
+		sb.WriteString("{")
+		for i, d := range e.decls {
+			if i > 0 {
+				sb.WriteString(", ")
+			}
+			if !d.embed {
+				sb.WriteString(c1mLabels[d.label])
+				if d.typ != '.' {
+					sb.WriteByte(d.typ)
+				}
+				sb.WriteString(": ")
+			}
+			d.v.cue(sb)
+		}
+		sb.WriteString("}")
+	}
+}
+
+type c1mgen struct{ r *Rng }
+
+func (g *c1mgen) scalar(fam int) *c1mx {
+	var toks []string
+	switch fam {
+	case 0: // integers
+		toks = []string{"i1", "i1", "i2", "i3", "tI", "tI", "r1:5", "r*:2", "r2:*", "r1:1", "r0:3", "T"}
+	case 1:
+		toks = []string{"s0", "s0", "s1", "tS", "tS", "T"}
+	default:
+		toks = []string{"b0", "b1", "tB", "N", "T", "i1", "s0"}
+	}
+	t := Pick(g.r, toks)
+	if t == "T" {
+		return &c1mx{op: 'T'}
+	}
+	return &c1mx{op: 's', tok: t}
+}
+
+// structExpr: an expression that evaluates to a struct (or bottom): literal, & of such,
+// close of such.
+func (g *c1mgen) structExpr(depth int, allowClose bool) *c1mx {
+	switch w := g.r.Intn(10); {
+	case depth > 0 && w < 2:
+		return &c1mx{op: '&', args: []*c1mx{g.structExpr(depth-1, allowClose), g.structExpr(depth-1, allowClose)}}
+	case allowClose && w < 4:
+		return &c1mx{op: 'c', args: []*c1mx{g.structExpr(depth, false)}}
+	}
+	n := g.r.Intn(4)
+	e := &c1mx{op: '{'}
+	for i := 0; i < n; i++ {
+		if depth > 0 && g.r.Chance(1, 7) {
+			// embedded struct literal (never closed: closedness of embeddings is C05's)
+			e.decls = append(e.decls, c1md{embed: true, v: g.structLit(depth - 1)})
+			continue
+		}
+		l := g.r.Intn(4)
+		typ := byte('.')
+		switch g.r.Intn(8) {
+		case 0, 1:
+			typ = '?'
+		case 2:
+			typ = '!'
+		}
+		e.decls = append(e.decls, c1md{label: l, typ: typ, v: g.value(depth-1, l, allowClose)})
+	}
+	return e
+}
+
+func (g *c1mgen) structLit(depth int) *c1mx {
+	e := g.structExpr(depth, false)
+	for e.op != '{' {
+		e = e.args[0]
+	}
+	return e
+}
+
+// value for label l: a, b hold scalars of one family (mostly compatible), c, d hold structs.
+func (g *c1mgen) value(depth int, l int, allowClose bool) *c1mx {
+	if g.r.Chance(1, 25) {
+		return &c1mx{op: 'B'}
+	}
+	if l >= 2 && depth >= 0 && !g.r.Chance(1, 10) {
+		if depth < 0 {
+			depth = 0
+		}
+		return g.structExpr(depth, allowClose)
+	}
+	fam := l
+	if g.r.Chance(1, 12) {
+		fam = g.r.Intn(3)
+	}
+	s := g.scalar(fam)
+	if g.r.Chance(1, 4) {
+		return &c1mx{op: '&', args: []*c1mx{s, g.scalar(fam)}}
+	}
+	return s
+}
+
+// ---- projection of the implementation's value to the model's canonical form ------------
+
+func c1mInt(n *adt.Num) (string, bool) {
+	if n.K&adt.IntKind == 0 {
+		return "", false
+	}
+	i, err := n.X.Int64()
+	if err != nil {
+		return "", false
+	}
+	return fmt.Sprint(i), true
+}
+
+func c1mScalar(x adt.Value) string {
+	switch x := x.(type) {
+	case *adt.Top:
+		return "T"
+	case *adt.Num:
+		if s, ok := c1mInt(x); ok {
+			return "i" + s
+		}
+	case *adt.String:
+		if strings.HasPrefix(x.Str, "s") {
+			return x.Str
+		}
+	case *adt.Bool:
+		if x.B {
+			return "b1"
+		}
+		return "b0"
+	case *adt.Null:
+		return "N"
+	case *adt.BasicType:
+		switch x.K {
+		case adt.IntKind:
+			return "tI"
+		case adt.StringKind:
+			return "tS"
+		case adt.BoolKind:
+			return "tB"
+		}
+	case *adt.BoundValue, *adt.Conjunction:
+		var vals []adt.Value
+		if c, ok := x.(*adt.Conjunction); ok {
+			vals = c.Values
+		} else {
+			vals = []adt.Value{x}
+		}
+		lo, hi := "*", "*"
+		isInt := false
+		for _, v := range vals {
+			switch v := v.(type) {
+			case *adt.BasicType:
+				if v.K != adt.IntKind {
+					return "?"
+				}
+				isInt = true
+			case *adt.BoundValue:
+				n, ok := v.Value.(*adt.Num)
+				if !ok {
+					return "?"
+				}
+				s, ok := c1mInt(n)
+				if !ok {
+					return "?"
+				}
+				switch v.Op {
+				case adt.GreaterEqualOp:
+					lo = s
+				case adt.LessEqualOp:
+					hi = s
+				default:
+					return "?"
+				}
+			default:
+				return "?"
+			}
+		}
+		if isInt {
+			return "r" + lo + ":" + hi
+		}
+	}
+	return "?"
+}
+
+// c1mProject returns the model-vocabulary form of v; bot reports whether the node is bottom
+// by the model's rule (own error, or an erroneous REGULAR field below).
+func c1mProject(ctx *adt.OpContext, r adt.Runtime, v *adt.Vertex) (s string, bot bool) {
+	v.Finalize(ctx)
+	v = v.DerefValue()
+	isStruct := false
+	switch b := v.BaseValue.(type) {
+	case *adt.Bottom:
+		if !b.ChildError {
+			return "bot", true
+		}
+		isStruct = true
+	case *adt.StructMarker:
+		isStruct = true
+	case adt.Value:
+		return c1mScalar(b), false
+	default:
+		return "?", false
+	}
+	if !isStruct {
+		return "?", false
+	}
+	type ent struct {
+		l int
+		s string
+	}
+	var ents []ent
+	for _, a := range v.Arcs {
+		if a.ArcType == adt.ArcNotPresent || a.ArcType == adt.ArcPending {
+			continue
+		}
+		if !a.Label.IsString() {
+			return "?", false
+		}
+		name := a.Label.StringValue(r)
+		l := sort.SearchStrings(c1mLabels, name)
+		if l >= len(c1mLabels) || c1mLabels[l] != name {
+			return "?", false
+		}
+		cs, cbot := c1mProject(ctx, r, a)
+		mark := "."
+		switch a.ArcType {
+		case adt.ArcOptional:
+			mark = "?"
+		case adt.ArcRequired:
+			mark = "!"
+		}
+		if cbot && a.ArcType == adt.ArcMember {
+			return "bot", true
+		}
+		ents = append(ents, ent{l, fmt.Sprintf("%d%s:%s", l, mark, cs)})
+	}
+	sort.Slice(ents, func(i, j int) bool { return ents[i].l < ents[j].l })
+	parts := make([]string, len(ents))
+	for i, e := range ents {
+		parts[i] = e.s
+	}
+	s = "{" + strings.Join(parts, ",") + "}"
+	if v.ClosedNonRecursive || v.ClosedRecursive {
+		s += "c"
+	}
+	return s, false
+}
+
+func c1mImpl(src string) (ans string) {
+	defer func() {
+		if e := recover(); e != nil {
+			ans = "panic"
+		}
+	}()
+	ctx := cuecontext.New()
+	v := ctx.CompileString(src).LookupPath(cue.ParsePath("x"))
+	if !v.Exists() {
+		return "bot"
+	}
+	r, vx := value.ToInternal(v)
+	s, _ := c1mProject(eval.NewContext(r, vx), r, vx)
+	return s
+}
+
+func c1ModelOps(c *Cfg, r *Rng) {
+	n := c.Pick(3000, 40000)
+	g := &c1mgen{r: r}
+	for i := 0; i < n; i++ {
+		var e *c1mx
+		if i%5 == 0 {
+			e = g.value(1, g.r.Intn(2), true)
+		} else {
+			e = g.structExpr(1+i%3, true)
+		}
+		var toks []string
+		e.tokens(&toks)
+		var sb strings.Builder
+		sb.WriteString("x: ")
+		e.cue(&sb)
+		ans := c1mImpl(sb.String())
+		line := "eval " + strings.Join(toks, " ")
+		c.Op("O", line, ans)
+		c.Count("model:" + map[bool]string{true: "bot", false: "value"}[ans == "bot"])
+		c.Case(line, len(toks) > 4 && ans != "bot")
+	}
+}
